@@ -11,6 +11,7 @@ CONSTANTS
   Flags = {"badRoot", "badSums", "badPrevRoot"}
   MaxDeliveries = 4
   HeadersFirst = FALSE
+  SimProfile = "mixed"
   TxShapes = "small"
 VIEW View
 INVARIANTS TypeOK HeadValidated HeadMaxWork BodiesValid UnspentIsReplay IndexConsistent NoDupUnspent SpentIdxInv SumsInv MaturityLockInv OrphansRetried OnlyValidRemembered
